@@ -35,6 +35,14 @@ def handle (st : DState) (j : Json) : Except String (DState × Json) := do
     let v ← valOfJson (← j.getObjVal? "v")
     let e ← endianOf (← getStr j "e")
     pure (st, Json.mkObj [("bytes", toHex (Spec.enc ty v e))])
+  | "spec_chunks" =>
+    let ty ← getTy st j
+    let v ← valOfJson (← j.getObjVal? "v")
+    let cs := (Spec.chunksTy ty v).map (fun c => match c with
+      | .scalar k _ => Json.arr #[Json.str "s", Json.num k]
+      | .pad n => Json.arr #[Json.str "p", Json.num n]
+      | .raw b => Json.arr #[Json.str "r", Json.num b.length])
+    pure (st, Json.mkObj [("chunks", Json.arr cs.toArray), ("gal", Spec.galTy ty v)])
   | "spec_layout" =>
     let ty ← getTy st j
     pure (st, Json.mkObj [("size", Spec.sizeTy ty), ("align", Spec.alignTy ty),
